@@ -31,6 +31,37 @@ pub fn main() -> ! {
                 .collect();
             json!({"frames": r})
         }
+        Some("firstcrc") => {
+            // every frame is decoded by its own thread, all released together: the very first
+            // checksums of a process computed concurrently
+            let n = frames.len();
+            let ready = std::sync::Arc::new(std::sync::atomic::AtomicUsize::new(0));
+            let go = std::sync::Arc::new(std::sync::atomic::AtomicBool::new(false));
+            let hs: Vec<_> = frames
+                .iter()
+                .cloned()
+                .map(|b| {
+                    let (ready, go) = (ready.clone(), go.clone());
+                    std::thread::spawn(move || {
+                        // spin (no futex wake-up latency): all threads leave within a fraction of a microsecond
+                        ready.fetch_add(1, std::sync::atomic::Ordering::SeqCst);
+                        while !go.load(std::sync::atomic::Ordering::Acquire) {
+                            std::hint::spin_loop();
+                        }
+                        match b.as_deref().map(Frame::from_bytes) {
+                            Some(Ok(f)) => json!(f.crc),
+                            _ => Value::Null,
+                        }
+                    })
+                })
+                .collect();
+            while ready.load(std::sync::atomic::Ordering::SeqCst) < n {
+                std::hint::spin_loop();
+            }
+            go.store(true, std::sync::atomic::Ordering::Release);
+            let r: Vec<Value> = hs.into_iter().map(|h| h.join().unwrap_or(Value::Null)).collect();
+            json!({"crcs": r})
+        }
         Some("debugdump") => {
             // Debug text (every decoded field) and checksum of each frame, decoded in list order
             let r: Vec<Value> = frames
